@@ -260,7 +260,7 @@ def run(tier):
     v2, s2, m2 = e5.pmap(check_accept, allp)
     report.add_all(v1 + v2)
     sub = Report(PROP, "model_checking", tier)
-    explore.run(SubSpec(), sub, tier, 4 if tier == "quick" else 6, 400000, 400)
+    explore.run(SubSpec(), sub, tier, 5 if tier == "quick" else 7, 400000, 400)
     from ..explore import confirm
 
     for v in sub.violations.values():
